@@ -216,7 +216,7 @@ def validate_trace(work, module, cfg_text, trace, verdicts, extra_env=None, time
 
 # the extra (not listed) conformance suites keep their own findings and evidence
 KNOWN_FILE = "known_findings.json"
-EVIDENCE_DIR = "evidence"
+EVIDENCE_DIR = os.environ.get("VERIF_EVIDENCE_DIR", "evidence")   # mutant runs keep their evidence apart
 REPLAY_DIR = "replays"
 
 
